@@ -172,21 +172,9 @@ def gen_sched(ctx):
     return lines
 
 
-def run(ctx):
-    ctx.regen()
-    ok, thms = ctx.lean_props()
-    if ok:
-        ctx.audit(thms)
-    if ctx.tier == "thorough":
-        ctx.leanchecker()
-    ctx.build_driver()
-    exe = ctx.build_harness("pure")
-    if not exe:
-        ctx.oblige("harness.build", False, getattr(ctx, "harness_err", "")[-400:])
-        return ctx.finish(LEVEL)
-    cases = gen_sf(ctx)
-    impl, model, d1 = ctx.differential("sf", cases, exe)
-    nt = search_sf(ctx, cases, impl)
+def sched_differential(ctx, exe, prop):
+    """random Add / Next / Remove / clock histories on the real HybridScheduler; the model validates each real choice against its
+    allowed set and says when declining is allowed. Returns (histories, model cases, disagreements)."""
     # scheduler: impl first, then the model validates each real choice against its allowed set
     import os
     sched = gen_sched(ctx)
@@ -211,7 +199,7 @@ def run(ctx):
             else:
                 mops.append(op)
         if len(chosen) != len(set(chosen)):
-            ctx.violation("C17:file-begun-twice", "scheduler returned the same file twice", {"case": f"sched {thr} {par} " + " ".join(ops), "impl": out})
+            ctx.violation(f"{prop}:file-begun-twice", "scheduler returned the same file twice", {"case": f"sched {thr} {par} " + " ".join(ops), "impl": out})
         mcases.append(f"sched {thr} {slots} " + " ".join(mops))
     mpath = os.path.join(ctx.workdir, "sched.model.cases")
     mout = os.path.join(ctx.workdir, "sched.model.out")
@@ -221,7 +209,26 @@ def run(ctx):
     ctx.oblige("correspondence:sched", not bad and len(implo) == len(sched), "; ".join(f"{c[:100]} -> {o[:100]}" for c, o in bad[:3]))
     for c, o in bad[:5]:
         if "MODEL-ALLOWS" in o:
-            ctx.violation("C17:scheduler-starves", "scheduler returned nothing although a pending file may be started", {"case": c, "model": o})
+            ctx.violation(f"{prop}:scheduler-starves", "scheduler returned nothing although a pending file may be started", {"case": c, "model": o})
+    return sched, mcases, bad
+
+
+def run(ctx):
+    ctx.regen()
+    ok, thms = ctx.lean_props()
+    if ok:
+        ctx.audit(thms)
+    if ctx.tier == "thorough":
+        ctx.leanchecker()
+    ctx.build_driver()
+    exe = ctx.build_harness("pure")
+    if not exe:
+        ctx.oblige("harness.build", False, getattr(ctx, "harness_err", "")[-400:])
+        return ctx.finish(LEVEL)
+    cases = gen_sf(ctx)
+    impl, model, d1 = ctx.differential("sf", cases, exe)
+    nt = search_sf(ctx, cases, impl)
+    sched, mcases, bad = sched_differential(ctx, exe, "C17")
     ctx.coverage.update({
         "evaluations": len(cases) + len(sched),
         "distinct_nontrivial": nt + len(sched),
